@@ -67,7 +67,7 @@ int vp_exc_matches(u8* obj, u8* ti) { return obj && (VP_EXC_TYPE(obj) == ti || V
 void vp_exc_escaped(void) { VP_ASSERT(0, "exception escaped a thread body / noexcept boundary"); }
 u8* vpx___cxa_allocate_exception(u64 n) { u8* p = malloc(n + 16); __CPROVER_assume(p != 0); p += 16; VP_EXC_TYPE(p) = 0; VP_EXC_REFS(p) = 0; return p; }
 void vpx___cxa_free_exception(u8* p) { }
-void vpx___cxa_throw(u8* p, u8* ti, u8* dtor) { VP_EXC_TYPE(p) = ti; vp_exc = p; vp_exc_thrown++; }
+void vpx___cxa_throw(u8* p, u8* ti, u8* dtor) { VP_EXC_TYPE(p) = ti; VP_EXC_REFS(p) = 1; vp_exc = p; vp_exc_thrown++; }   /* the flight holds one reference */
 u8* vpx___cxa_begin_catch(u8* p) {
   unsigned n = vp_ncaught[vp_cur]; VP_ASSERT(n < VP_MAXCAUGHT, "VP bound: nested catch depth");
   vp_caught[vp_cur][n] = p; vp_rethrown[vp_cur][n] = 0; vp_ncaught[vp_cur] = n + 1; return p; }
@@ -75,7 +75,7 @@ u8* vpx___cxa_get_exception_ptr(u8* p) { return p; }
 void vpx___cxa_end_catch(void) {
   unsigned n = vp_ncaught[vp_cur]; VP_ASSERT(n > 0, "__cxa_end_catch without begin_catch"); n--; vp_ncaught[vp_cur] = n;
   u8* p = vp_caught[vp_cur][n];
-  if (!vp_rethrown[vp_cur][n] && VP_EXC_REFS(p) == 0) vp_exc_destroyed++; }
+  if (!vp_rethrown[vp_cur][n]) { VP_ASSERT(VP_EXC_REFS(p) > 0, "exception object released too often"); if (--VP_EXC_REFS(p) == 0) vp_exc_destroyed++; } }
 void vpx___cxa_rethrow(void) {
   unsigned n = vp_ncaught[vp_cur]; VP_ASSERT(n > 0, "rethrow outside a handler (std::terminate)");
   vp_rethrown[vp_cur][n - 1] = 1; vp_exc = vp_caught[vp_cur][n - 1]; }
@@ -84,6 +84,14 @@ void _ZSt9terminatev(void) { VP_ASSERT(0, "std::terminate called"); }
 static u8* vp_exc_current(void) { unsigned n = vp_ncaught[vp_cur]; return n ? vp_caught[vp_cur][n - 1] : 0; }
 /* harness-side throw of a user exception of type token `ti` (any address used as a type_info) */
 static void vp_throw_user(u8* ti) { u8* p = vpx___cxa_allocate_exception(8); vpx___cxa_throw(p, ti, 0); }
+/* libstdc++'s std::exception_ptr entry points (shared ownership of the exception object; rethrow_exception starts a new
+   flight that holds its own reference). Instantiate in a harness with the generated struct name of std::exception_ptr. */
+#define VP_DEFINE_EPTR_STUBS(EPTR) \
+  int vp_rethrows; \
+  void _ZSt17current_exceptionv(EPTR* r) { r->f0 = vp_exc_current(); if (r->f0) VP_EXC_REFS(r->f0)++; } \
+  void _ZNSt15__exception_ptr13exception_ptr9_M_addrefEv(EPTR* r) { if (r->f0) VP_EXC_REFS(r->f0)++; } \
+  void _ZNSt15__exception_ptr13exception_ptr10_M_releaseEv(EPTR* r) { if (r->f0) { VP_ASSERT(VP_EXC_REFS(r->f0) > 0, "exception_ptr released more often than acquired"); if (--VP_EXC_REFS(r->f0) == 0) vp_exc_destroyed++; } } \
+  void _ZSt17rethrow_exceptionNSt15__exception_ptr13exception_ptrE(EPTR* r) { VP_ASSERT(r->f0 != 0, "rethrow of a null exception_ptr"); VP_EXC_REFS(r->f0)++; vp_exc = r->f0; vp_rethrows++; }
 #endif
 
 /* ---- Lazy-CSeq style scheduler (thread-mode units) ---- */
@@ -100,11 +108,11 @@ static void vp_throw_user(u8* ti) { u8* p = vpx___cxa_allocate_exception(8); vpx
 #endif
 /* free slice: run thread fn from its pc up to a solver-chosen context-switch point */
 #define VP_RUN(fn) VP_RUN_(fn)
-#define VP_RUN_(fn)    if (!fn##_fin) { VP_FL(fn) fn##_cs = (unsigned)vp_nd_range(fn##_pc, fn##_NV); fn##_step(); }
+#define VP_RUN_(fn)    if (!fn##_fin) { VP_FL(fn) fn##_cs = (unsigned)vp_nd_range(fn##_pc, fn##_NV); fn##_step(); } else { VP_FL(fn) }   /* else: TSO, the store buffer of a finished thread keeps draining (no-op in SC mode) */
 #define VP_RUNT(fn, tid) { vp_cur = (tid); VP_RUN(fn) }
 /* forced slice: run as far as possible */
 #define VP_RUNMAX(fn) VP_RUNMAX_(fn)
-#define VP_RUNMAX_(fn) if (!fn##_fin) { VP_FLALL(fn) fn##_cs = fn##_NV; fn##_step(); VP_FLALL(fn) }
+#define VP_RUNMAX_(fn) if (!fn##_fin) { VP_FLALL(fn) fn##_cs = fn##_NV; fn##_step(); VP_FLALL(fn) } else { VP_FLALL(fn) }
 #define VP_STUCK(fn) VP_STUCK_(fn)
 #define VP_STUCK_(fn)  (fn##_fin || fn##_blocked)
 
@@ -124,4 +132,22 @@ static void vp_throw_user(u8* ti) { u8* p = vpx___cxa_allocate_exception(8); vpx
   vp_cur = 0; VP_RUNMAX(a) vp_cur = 1; VP_RUNMAX(b) vp_cur = 2; VP_RUNMAX(c) \
   int vp_unfinished = !a##_fin || !b##_fin || !c##_fin; \
   int vp_deadlock = vp_unfinished && vp_pb_ && VP_STUCK(a) && VP_STUCK(b) && VP_STUCK(c) && !vp_changed;
+/* Variant of the two-round oracle for thread bodies with NESTED wait loops (an outer retry loop around inner busy-wait loops, e.g.
+ * queuing_rw_mutex "goto requested/waiting/retry"): a thread that parks at a different back edge in the probe round than in the
+ * settling round has made control progress without writing memory (it left the inner wait loop) and is NOT stuck; the plain
+ * VP_QUIESCEn would call that a deadlock. Here a deadlock additionally requires every thread to park at the same point twice. */
+#define VP_QUIESCE2S(a, b) VP_QUIESCE2S_(a, b)
+#define VP_QUIESCE2S_(a, b) \
+  vp_cur = 0; VP_RUNMAX(a) vp_cur = 1; VP_RUNMAX(b) \
+  int vp_pb_ = VP_STUCK(a) && VP_STUCK(b); unsigned vp_pca_ = a##_pc, vp_pcb_ = b##_pc; vp_changed = 0; \
+  vp_cur = 0; VP_RUNMAX(a) vp_cur = 1; VP_RUNMAX(b) \
+  int vp_unfinished = !a##_fin || !b##_fin; \
+  int vp_deadlock = vp_unfinished && vp_pb_ && VP_STUCK(a) && VP_STUCK(b) && !vp_changed && vp_pca_ == a##_pc && vp_pcb_ == b##_pc;
+#define VP_QUIESCE3S(a, b, c) VP_QUIESCE3S_(a, b, c)
+#define VP_QUIESCE3S_(a, b, c) \
+  vp_cur = 0; VP_RUNMAX(a) vp_cur = 1; VP_RUNMAX(b) vp_cur = 2; VP_RUNMAX(c) \
+  int vp_pb_ = VP_STUCK(a) && VP_STUCK(b) && VP_STUCK(c); unsigned vp_pca_ = a##_pc, vp_pcb_ = b##_pc, vp_pcc_ = c##_pc; vp_changed = 0; \
+  vp_cur = 0; VP_RUNMAX(a) vp_cur = 1; VP_RUNMAX(b) vp_cur = 2; VP_RUNMAX(c) \
+  int vp_unfinished = !a##_fin || !b##_fin || !c##_fin; \
+  int vp_deadlock = vp_unfinished && vp_pb_ && VP_STUCK(a) && VP_STUCK(b) && VP_STUCK(c) && !vp_changed && vp_pca_ == a##_pc && vp_pcb_ == b##_pc && vp_pcc_ == c##_pc;
 #endif
